@@ -404,14 +404,17 @@ func NewOracleC12(t *DisputeTracker) *OracleC12 {
 // began (or no team-weight vote was counted): its ordinary vote is then read as the team's vote by the tally.
 func (o *OracleC12) teamRotatedOntoVoter(b *BlockCtx, v *View, d DisputeInfo, cnt disputetypes.StakeholderVoteCounts) bool {
 	has, err := b.Ref.App.DisputeKeeper.Voter.Has(v.ctx, collections.Join(d.D.DisputeId, []byte(v.TeamAddr())))
-	if err != nil || !has {
+	if err != nil {
 		return false
 	}
-	if cnt.Team.Support+cnt.Team.Against+cnt.Team.Invalid == 0 {
-		return true
+	teamVotes := cnt.Team.Support + cnt.Team.Against + cnt.Team.Invalid
+	if has && teamVotes == 0 {
+		return true // the present team voted as an ordinary account
 	}
+	// the team address changed while the dispute was running: either the present team's ordinary vote is read as the
+	// team's, or the vote the team did cast (team counter set) is no longer found under the present address
 	first, ok := o.teamAt[d.D.DisputeId]
-	return ok && first != string(v.TeamAddr())
+	return ok && first != string(v.TeamAddr()) && (has || teamVotes > 0)
 }
 func (o *OracleC12) ID() string { return "C12" }
 
